@@ -72,6 +72,9 @@ Apply(st, clock, o) ==
                               ELSE [st |-> same, res |-> OKR]
        [] o.op = "IncrBy"  -> IF live THEN [st |-> put(e.v + o.n, e.exp), res |-> R("int", e.v + o.n)]
                               ELSE [st |-> put(o.n, FAR), res |-> R("int", o.n)]
+       \* the expiry sweep (CleanupExpired, explicit or from the StartCleanup ticker; a no-op on Redis, whose server
+       \* expires keys itself) is not an operation of the map: it has no key, answers ok and changes nothing
+       [] o.op = "Sweep"   -> [st |-> same, res |-> OKR]
 
 \* Result comparison as far as the statement goes (DESIGN.md Appendix B):
 \*  - SetExp on an absent key: error or silent no-op are both acceptable (only the state matters);
